@@ -1,4 +1,5 @@
 use crate::common::Ctx;
+pub mod c10;
 pub mod c19;
 pub mod c01;
 pub mod c02;
@@ -17,6 +18,7 @@ pub fn dispatch(ctx: &mut Ctx) -> bool {
         "C11" => c11::run(ctx),
         "C17" => c17::run(ctx),
         "C19" => c19::run(ctx),
+        "C10" => c10::run(ctx),
         _ => return false,
     }
     true
